@@ -84,7 +84,7 @@ func runMutant(repo, verif, prop string, known []eng.KnownFinding, m Mutant) mut
 			overlay[abs] = []byte(str[:idx] + e.New + str[idx+len(e.Old):])
 		}
 	}
-	p, err := eng.Load(repo, overlay)
+	p, _, err := eng.Normalize(repo, overlay, baseline())
 	if err != nil {
 		res.Status, res.Detail = "invalid", "mutant does not type-check: "+err.Error()
 		return res
